@@ -777,7 +777,8 @@ impl<'a> UdpNhcRepr {
                 checksum::data(packet.payload_mut()),
             ]);
 
-            packet.set_checksum(chk_sum);
+            // RFC 768: a computed checksum of zero is transmitted as all ones.
+            packet.set_checksum(if chk_sum == 0 { 0xffff } else { chk_sum });
         }
     }
 }
